@@ -100,8 +100,9 @@ def check_apply(ctx, eng, qual, table, side):
                     if not its:
                         bad.append('no loop over the streams')
                         continue
-                    if not loop_events:
-                        continue        # zero-iteration path
+                    if not any(e.kind == 'endloop' for e in p.events):
+                        continue        # zero-iteration path (a loop
+                        #                 whose body does nothing is not one)
                     if any(e.kind == 'assume' for e in loop_events):
                         bad.append('some streams keep the stale %s' % attr)
                     it = its[-1].iterable
@@ -341,13 +342,13 @@ def run(ctx, eng):
                        node=s['node'])
     # ---- (f) queue discipline
     f4 = m.func('settings.Settings.__getitem__')
-    ok = False
+    ok = cm.Every()
     for p in eng.I.run(f4):
         if p.exit == 'return':
             v = p.value
-            ok = v[0] == 'sub' and v[2] == T.C(0) and v[1][0] == 'sub' and \
-                v[1][2] == ('p', 'key') and \
-                cm.attr_chain(v[1][1]) == 'self._settings'
+            ok(bool(v) and v[0] == 'sub' and v[2] == T.C(0) and
+               v[1][0] == 'sub' and v[1][2] == ('p', 'key') and
+               cm.attr_chain(v[1][1]) == 'self._settings')
     ctx.ob('FLOW.queue', f4.qual, 'reads the acknowledged (first) value',
            ok, 'self._settings[key][0]', node=f4.node)
     none_is_absent = any(
